@@ -509,6 +509,11 @@ func (r *Report) writeEvidence(oblist []*Oblig, nObl, nDis int, knownHit []strin
 			}
 		}
 	}
+	for _, gi := range r.DB.GlobalInits {
+		if gi.IsSplit && (r.Prop == "" || hasProp(gi.Props, r.Prop)) {
+			assumptions = append(assumptions, "length of "+gi.Name+" is recounted from the constant in its initialiser as strings.Count(s, sep)+1, the documented result length of strings.Split for a non-empty separator (library behaviour, trusted); element contents are not constrained")
+		}
+	}
 	sort.Strings(assumptions)
 	ev := map[string]interface{}{
 		"property_id": r.Prop,
